@@ -97,7 +97,8 @@ theorem applyInsert_ok {c : Codec} {H : Bytes → Bytes} {early : Bool} {st st' 
 abbrev GFrame := Frame × Bytes
 
 /-- the frame points at its stored payload, inside the payload region -/
-structure Holds (s : Store) (g : GFrame) : Prop where
+structure Holds (H : Bytes → Bytes) (s : Store) (g : GFrame) : Prop where
+  cksum : g.1.checksum = H g.2
   len : g.1.len = g.2.length
   bytes : slice s.file g.1.off g.1.len = g.2
   bound : g.1.len ≠ 0 → g.1.off + g.1.len ≤ s.payloadEnd
@@ -115,10 +116,10 @@ theorem okStep_linv (H : Bytes → Bytes) (early : Bool) (st : ApSt) (seq : Nat)
   · simp only [okStep, viewAfterWrite, writeExt_length]; omega
 
 theorem okStep_stored_old (H : Bytes → Bytes) (early : Bool) (st : ApSt) (seq : Nat) (parent : Option Nat) (e : Entry)
-    (hi : LInv st) (g : GFrame) (hg : Holds st.s g) : Holds (okStep H early st seq parent e).s g := by
+    (hi : LInv st) (g : GFrame) (hg : Holds H st.s g) : Holds H (okStep H early st seq parent e).s g := by
   obtain ⟨h1, h2⟩ := hi
-  obtain ⟨g1, g2, g3⟩ := hg
-  refine ⟨g1, ?_, ?_⟩
+  obtain ⟨g0, g1, g2, g3⟩ := hg
+  refine ⟨g0, g1, ?_, ?_⟩
   · simp only [okStep, viewAfterWrite]
     by_cases hz : g.1.len = 0
     · rw [hz, slice_zero]; rw [hz, slice_zero] at g2; exact g2
@@ -130,8 +131,8 @@ theorem okStep_stored_old (H : Bytes → Bytes) (early : Bool) (st : ApSt) (seq 
     simp only [okStep, viewAfterWrite]; omega
 
 theorem okStep_stored_new (H : Bytes → Bytes) (early : Bool) (st : ApSt) (seq : Nat) (parent : Option Nat) (e : Entry) :
-    Holds (okStep H early st seq parent e).s (mkFrame H st.s.frames.length st.cursor parent e, e.payload) := by
-  refine ⟨rfl, ?_, ?_⟩
+    Holds H (okStep H early st seq parent e).s (mkFrame H st.s.frames.length st.cursor parent e, e.payload) := by
+  refine ⟨rfl, rfl, ?_, ?_⟩
   · simp only [okStep, viewAfterWrite, mkFrame]
     exact slice_writeExt_same _ _ _
   · intro _
@@ -149,8 +150,8 @@ def loopG (H : Bytes → Bytes) : Nat → Nat → List (Nat × Nat) → List (Na
 /-- what a successful `applyLoop` did -/
 structure LoopRes (H : Bytes → Bytes) (st st' : ApSt) (recs : List (Nat × Entry)) : Prop where
   frames : st'.s.frames = st.s.frames ++ (loopG H st.s.frames.length st.cursor st.seqMap recs).map Prod.fst
-  newStored : ∀ g ∈ loopG H st.s.frames.length st.cursor st.seqMap recs, Holds st'.s g
-  oldStored : ∀ g, Holds st.s g → Holds st'.s g
+  newStored : ∀ g ∈ loopG H st.s.frames.length st.cursor st.seqMap recs, Holds H st'.s g
+  oldStored : ∀ g, Holds H st.s g → Holds H st'.s g
   linv : LInv st'
   cursor : st.cursor ≤ st'.cursor
   pending : st'.s.pending = st.s.pending
@@ -429,7 +430,7 @@ theorem foldl_endStep_le : ∀ (fs : List Frame) (acc B : Nat), acc ≤ B →
 
 structure Inv (c : Codec) (H : Bytes → Bytes) (s : Store) (bl : List (Nat × PutArgs)) (pend : List PutArgs) : Prop where
   frames : s.frames = (tableG c H 0 bl).map Prod.fst
-  stored : ∀ g ∈ tableG c H 0 bl, Holds s g
+  stored : ∀ g ∈ tableG c H 0 bl, Holds H s g
   pe_de : s.payloadEnd ≤ s.dataEnd
   pe_file : s.payloadEnd ≤ s.file.length
   pending : ∃ q, s.pending = pendRecs c q pend ∧ s.seq = q + (pend.map recCount).sum
@@ -437,9 +438,9 @@ structure Inv (c : Codec) (H : Bytes → Bytes) (s : Store) (bl : List (Nat × P
 theorem inv_init (c : Codec) (H : Bytes → Bytes) : Inv c H {} [] [] :=
   ⟨rfl, by simp [tableG], Nat.le_refl _, Nat.zero_le _, ⟨0, rfl, rfl⟩⟩
 
-theorem Holds.congr {s1 s2 : Store} {g : GFrame} (hf : s2.file = s1.file) (hp : s1.payloadEnd ≤ s2.payloadEnd)
-    (h : Holds s1 g) : Holds s2 g :=
-  ⟨h.len, by rw [hf]; exact h.bytes, fun hz => Nat.le_trans (h.bound hz) hp⟩
+theorem Holds.congr {H : Bytes → Bytes} {s1 s2 : Store} {g : GFrame} (hf : s2.file = s1.file) (hp : s1.payloadEnd ≤ s2.payloadEnd)
+    (h : Holds H s1 g) : Holds H s2 g :=
+  ⟨h.cksum, h.len, by rw [hf]; exact h.bytes, fun hz => Nat.le_trans (h.bound hz) hp⟩
 
 theorem Inv.frames_length {c : Codec} {H : Bytes → Bytes} {s : Store} {bl : List (Nat × PutArgs)} {pend : List PutArgs}
     (hi : Inv c H s bl pend) : s.frames.length = tableLen bl := by
@@ -474,7 +475,7 @@ theorem applyRecords_inv {c : Codec} {H : Bytes → Bytes} {early : Bool} {s s' 
       rw [hG]
     · intro g hg
       rw [tableG_append] at hg
-      have : Holds st.s g := by
+      have : Holds H st.s g := by
         rcases List.mem_append.mp hg with hg | hg
         · exact R.oldStored g (hi.stored g hg)
         · exact R.newStored g (by show g ∈ loopG H s.frames.length s.dataEnd [] s.pending; rw [hG]; exact hg)
@@ -516,7 +517,7 @@ theorem openStore_inv {c : Codec} {H : Bytes → Bytes} (early : Bool) {s : Stor
     refine ⟨hi.frames, ?_, Nat.le_max_right _ _, Nat.le_trans hfe hi.pe_file, hi.pending⟩
     intro g hg
     have hg' := hi.stored g hg
-    refine ⟨hg'.len, hg'.bytes, ?_⟩
+    refine ⟨hg'.cksum, hg'.len, hg'.bytes, ?_⟩
     intro hz
     show g.1.off + g.1.len ≤ frameEnds s.frames
     rw [frameEnds_eq]
@@ -605,10 +606,10 @@ theorem run_inv {c : Codec} {H : Bytes → Bytes} (early : Bool) :
 /-! ## Reads -/
 
 /-- reading a frame that points at its stored payload gives the decoded payload -/
-theorem ownCanonical_of_holds {c : Codec} {s : Store} {g : GFrame} {p : Bytes} (hg : Holds s g)
+theorem ownCanonical_of_holds {c : Codec} {H : Bytes → Bytes} {s : Store} {g : GFrame} {p : Bytes} (hg : Holds H s g)
     (hde : s.payloadEnd ≤ s.dataEnd) (hfl : s.payloadEnd ≤ s.file.length) (hmax : g.1.len ≤ MAX_FRAME_BYTES)
     (hdec : decodeCanonical c g.2 g.1.enc = some p) (hlen : p.length = g.1.canonLen) :
-    ownCanonical c s g.1 = .ok p := by
+    ownCanonical c H s g.1 = .ok p := by
   have hv : validateBounds s g.1 = none := by
     unfold validateBounds
     by_cases hz : g.1.len = 0
@@ -616,9 +617,22 @@ theorem ownCanonical_of_holds {c : Codec} {s : Store} {g : GFrame} {p : Bytes} (
     · have := hg.bound hz
       simp only [hz, if_false]
       rw [if_neg (by omega), if_neg (by omega), if_neg (by omega)]
-  unfold ownCanonical readPayload
-  rw [hv]
-  simp only [hg.bytes, hdec, hlen, if_true]
+  have hr : readPayload H s g.1 = .ok g.2 := by
+    unfold readPayload
+    rw [hv]
+    simp only [hg.bytes, hg.cksum, bne_self_eq_false, Bool.and_false, Bool.false_eq_true, if_false]
+  unfold ownCanonical
+  rw [hr]
+  simp only [hdec, hlen, if_true]
+
+/-- the blob reader of a Plain frame that points at its stored payload returns that payload -/
+theorem blobReader_plain_of_holds {c : Codec} {H : Bytes → Bytes} {s : Store} {g : GFrame} (hg : Holds H s g)
+    (henc : g.1.enc = .plain) : blobReader c H s g.1 = .ok g.2 := by
+  unfold blobReader
+  rw [henc]
+  dsimp only
+  rw [hg.bytes, hg.cksum, hg.len]
+  simp
 
 theorem mem_tableG_block {c : Codec} {H : Bytes → Bytes} {pre post : List (Nat × PutArgs)} {cur : Nat} {a : PutArgs}
     {g : GFrame} (hg : g ∈ blockG c H (tableLen pre) cur a) : g ∈ tableG c H 0 (pre ++ (cur, a) :: post) := by
@@ -748,9 +762,9 @@ theorem sortBy_chunkG (c : Codec) (H : Bytes → Bytes) (a : PutArgs) (d : Nat) 
 /-- reading the chunk frames of a block one after the other gives the chunk texts -/
 theorem childPayloads_chunkG {c : Codec} (hc : c.RoundTrip) {H : Bytes → Bytes} {s : Store} (a : PutArgs) (d : Nat)
     (hde : s.payloadEnd ≤ s.dataEnd) (hfl : s.payloadEnd ≤ s.file.length) :
-    ∀ (ts : List Bytes) (i cur : Nat), (∀ g ∈ chunkG c H a d ts i cur, Holds s g) →
+    ∀ (ts : List Bytes) (i cur : Nat), (∀ g ∈ chunkG c H a d ts i cur, Holds H s g) →
       (∀ t ∈ ts, (prepare c DEFAULT_LEVEL t).bytes.length ≤ MAX_FRAME_BYTES) →
-      childPayloads c s ((chunkG c H a d ts i cur).map Prod.fst) = .ok ts := by
+      childPayloads c H s ((chunkG c H a d ts i cur).map Prod.fst) = .ok ts := by
   intro ts
   induction ts with
   | nil => intro i cur _ _; rfl
@@ -759,7 +773,7 @@ theorem childPayloads_chunkG {c : Codec} (hc : c.RoundTrip) {H : Bytes → Bytes
     simp only [chunkG, List.map_cons, childPayloads]
     have hg := hst _ (by simp only [chunkG]; exact List.mem_cons_self)
     have hd := decode_prepare c hc DEFAULT_LEVEL t
-    have h1 : ownCanonical c s (mkFrame H (d + 1 + i) cur (some d) (chunkEntry c a 0 i t)) = .ok t :=
+    have h1 : ownCanonical c H s (mkFrame H (d + 1 + i) cur (some d) (chunkEntry c a 0 i t)) = .ok t :=
       ownCanonical_of_holds (g := (mkFrame H (d + 1 + i) cur (some d) (chunkEntry c a 0 i t), (chunkEntry c a 0 i t).payload))
         hg hde hfl (hmax t (by simp)) hd.1 hd.2.symm
     rw [h1]
@@ -785,7 +799,7 @@ theorem applyInsert_total {c : Codec} {H : Bytes → Bytes} {st : ApSt} {seq : N
     (hi : LInv st) (hde : st.s.payloadEnd ≤ st.s.dataEnd) (hp : resolveParent st.seqMap e.parentSeq = some parent)
     (hok : RecOk c e) : applyInsert c H true st seq e = .ok (okStep H true st seq parent e) := by
   obtain ⟨h1, h2⟩ := hi
-  have hidx : indexTextErr c (viewAfterWrite true st e) st.s.engine e
+  have hidx : indexTextErr c H (viewAfterWrite true st e) st.s.engine e
       (mkFrame H st.s.frames.length st.cursor parent e) = none := by
     unfold indexTextErr
     split
@@ -813,9 +827,9 @@ theorem applyInsert_total {c : Codec} {H : Bytes → Bytes} {st : ApSt} {seq : N
         split
         · rfl
         · obtain ⟨p, hp1, hp2⟩ := hok.decodes
-          have hown : ownCanonical c (viewAfterWrite true st e) (mkFrame H st.s.frames.length st.cursor parent e) = .ok p := by
+          have hown : ownCanonical c H (viewAfterWrite true st e) (mkFrame H st.s.frames.length st.cursor parent e) = .ok p := by
             apply ownCanonical_of_holds (g := (mkFrame H st.s.frames.length st.cursor parent e, e.payload))
-            · refine ⟨rfl, ?_, ?_⟩
+            · refine ⟨rfl, rfl, ?_, ?_⟩
               · simp only [viewAfterWrite, mkFrame]; exact slice_writeExt_same _ _ _
               · intro _; simp only [viewAfterWrite, mkFrame]; omega
             · simp only [viewAfterWrite, if_true]; omega
